@@ -85,6 +85,43 @@ def w_states(items):
         elif (ff is not None) != bool(exp):
             which = sorted(exp.elements())[0][0] if exp else "none"
             out.append((f"failfast-{'accepted' if ff is None else 'rejected'}:{which}", f"{unit} attrs {want}: expected errors {sorted(exp.elements())}; fail-fast {ff!r}", replay))
+    # several nodes of one rule - including the same assignment twice - validated by ONE validate.tree walk into ONE list:
+    # one error per violated constraint PER NODE, whatever the list already holds
+    by_unit = {}
+    for (i, seed) in items:
+        by_unit.setdefault(G["A"][i]["unit"], []).append((i, seed))
+    for unit, its in by_unit.items():
+        el = elem.get(unit)
+        if not el:
+            continue
+        for lo in range(0, len(its), 8):
+            batch = its[lo:lo + 8]
+            batch = batch + batch[:2]                 # the first two assignments occur twice in the walk
+            parents, exps = [], []
+            for (i, seed) in batch:
+                a = G["A"][i]
+                p = c02.build_node(unit, el, None, False, rules, dfas) or c02.build_node(unit, el, None, True, rules, dfas)
+                if p is None:
+                    continue
+                p.content = c01.parent_for(unit, el, rules).content
+                for k in list(p.attributes):
+                    p.remove_attribute(k)
+                for slot, v in a["asg"].items():
+                    if v != "~absent":
+                        p.add_attribute(FOREIGN_ATTR if slot == "~foreignAttr" else slot, UNLISTED_VAL if v == "~unlisted" else v)
+                parents.append(p)
+                exps.append(collections.Counter((cc, FOREIGN_ATTR if s == "~foreignAttr" else s) for cc, s in a["errs"]))
+            raised, by = c01.forest_errors(parents)
+            Node.store.clear()
+            if raised is not None:
+                out.append((f"forest:collecting-mode-raised:{type(raised).__name__}", repr(raised), {"kind": "forest", "unit": unit}))
+                continue
+            for p, exp in zip(parents, exps):
+                got = collections.Counter((e[0].name, e[3] if len(e) > 3 else None) for e in by.get(id(p), []) if e[0].name.startswith("ATTRIBUTE"))
+                n += 1
+                if got != exp:
+                    out.append(("forest:collecting-errors-differ", f"{unit} attrs {dict(p.attributes)} inside one walk over {len(parents)} nodes: expected {sorted(exp.elements())} got {sorted(got.elements())}",
+                                {"kind": "forest", "unit": unit, "attributes": dict(p.attributes), "expected": sorted(exp.elements())}))
     return n, out
 
 
